@@ -100,8 +100,20 @@ def stmt_text(s):
 
 def program(hist):
     lines = ['OPEN "F1.TXT" FOR OUTPUT AS #1', 'OPEN "F2.TXT" FOR OUTPUT AS #2']
-    lines += [stmt_text(s) for s in hist]
-    lines += ["CLOSE"]
+    tail = []
+    for j, s in enumerate(hist):
+        if s.get("infn"):
+            # this statement runs inside a FUNCTION that an item of the statement before it calls (another device:
+            # the two statements do not see each other)
+            prev = lines.pop()
+            it = [i for i in hist[j - 1]["items"] if i["k"] == "num" and i.get("ty", "I") == "I" and "c" not in i and not i.get("neg0")][0]
+            e = expr_of(it)
+            k = prev.index(" " + e) + 1
+            lines.append(prev[:k] + "NF%%(%s)" % e + prev[k + len(e):])
+            tail = ["FUNCTION NF% (V%)", stmt_text(s), "NF% = V%", "END FUNCTION"]
+        else:
+            lines.append(stmt_text(s))
+    lines += ["CLOSE"] + tail
     return "\r\n".join(lines) + "\r\n"
 
 
@@ -152,6 +164,16 @@ def gen_histories(tier, rng):
     for _ in range(n):
         k = rng.randint(3, 9)
         hs.append([{"dev": rng.choice(DEVS), "items": rng.choice(L)} for _ in range(k)])
+    # a statement that runs in the middle of another one, on another device (inside a FUNCTION called from one of its items):
+    # each of the two comes out whole on its own device, pending lines included
+    withint = [l for l in L if any(i["k"] == "num" and i.get("ty", "I") == "I" and "c" not in i and not i.get("neg0") for i in l)]
+    for outer in (withint if tier == "thorough" else rng.sample(withint, min(len(withint), 30))):
+        for inner in must + rng.sample(L, 4):
+            for d1, d2 in (("f1", "scr"), ("scr", "f1"), ("f1", "f2"), ("lpt", "scr"), ("scr", "lpt"), ("f2", "lpt")):
+                for p in (([], pend[0], pend[1]) if tier == "thorough" else ([], pend[0])):
+                    h = ([{"dev": d2, "items": p}] if p else []) + [{"dev": d1, "items": outer}, {"dev": d2, "items": inner, "infn": True},
+                                                                     {"dev": d1, "items": [ITEMS[1]]}, {"dev": d2, "items": [ITEMS[1]]}]
+                    hs.append(h)
     return hs
 
 
